@@ -27,6 +27,7 @@ class NoisySc(calsim.Scenario):
     """measurements carry complex Gaussian noise of the declared size; `gross` (index of a standard) is off by 100 sigma"""
     noise = None      # (sigma_nf, sigma_tr)
     gross = None
+    gross_f = None    # None: at every frequency; else the only frequency index that is off
     nstd = 0
 
     def meas(self, Sfull_by_f, rows_sel=None, cols_sel=None):
@@ -37,21 +38,21 @@ class NoisySc(calsim.Scenario):
             return Mf
         nf_, tr_ = self.noise
         out = []
-        for M in Mf:
+        for fi, M in enumerate(Mf):
             sig = np.sqrt(nf_ ** 2 + (tr_ * np.abs(M)) ** 2)
             g = np.array([[complex(self.rng.gauss(0, 1), self.rng.gauss(0, 1)) for _ in range(M.shape[1])] for _ in range(M.shape[0])]) / math.sqrt(2)
             N = sig * g
-            if self.gross == k:
+            if self.gross == k and (self.gross_f is None or self.gross_f == fi):
                 N = N + 100.0 * sig
             out.append(M + N)
         return out
 
 
-def scenario(rng, typ, n, nf, noise=None, gross=None, merr=None, plim=None, slot_c=0, slot_n=0, box=None, fgrid=None, seed_others=None):
+def scenario(rng, typ, n, nf, noise=None, gross=None, merr=None, plim=None, slot_c=0, slot_n=0, box=None, fgrid=None, seed_others=None, gross_f=None):
     sc = NoisySc(rng, typ, n, n, nf, form='m', slot_c=slot_c, slot_n=slot_n, box=box)
     if seed_others is not None:
         sc.others = seed_others
-    sc.noise, sc.gross = noise, gross
+    sc.noise, sc.gross, sc.gross_f = noise, gross, gross_f
     sc.begin()
     if merr is not None:
         (gf, snf, str_) = merr
@@ -107,7 +108,8 @@ def run(chk):
                 b = finish(scenario(random.Random(seed), typ, n, nf, merr=(None, [snf], [str_] if str_ else None)))
                 # enabled, then disabled again before the standards are solved
                 c = scenario(random.Random(seed), typ, n, nf, merr=(None, [snf], [str_] if str_ else None))
-                c.lines.insert(3, 'cal new_set_m_error %d 1 N N N' % c.n)
+                i_set = next(i for i, l in enumerate(c.lines) if l.startswith('cal new_set_m_error'))
+                c.lines.insert(i_set + 1, 'cal new_set_m_error %d 1 N N N' % c.n)          # disable right after enabling
                 c = finish(c)
                 scs.append(('exact', typ, n, a, b, c))
     lines = [l for (_, _, _, a, b, c) in scs for s in (a, b, c) for l in s.lines]
@@ -171,7 +173,10 @@ def run(chk):
             # in the 16-term models only standards that specify the whole S matrix contribute equations (vnacal_new(3)):
             # an error in a single reflect cannot be noticed there
             cand = [i for i, kd in enumerate(kinds) if typ not in ('T16', 'U16') or kd != 'single_reflect']
-            sc = scenario(random.Random(seed), typ, n, 1, noise=(snf, str_), gross=random.Random(seed + 1).choice(cand), merr=(None, [snf], [str_] if str_ else None), plim=PLIM)
+            # half of them: several frequencies, only the last one is off (a failure at a later frequency must fail the call)
+            late = random.Random(seed + 2).random() < 0.5
+            sc = scenario(random.Random(seed), typ, n, 3 if late else 1, noise=(snf, str_), gross=random.Random(seed + 1).choice(cand), gross_f=2 if late else None,
+                          merr=(None, [snf], [str_] if str_ else None), plim=1e-6 if late else PLIM)
         sc.solve()
         sc.lines += ['cal free 0']
         trials.append((kind, typ, n, snf, str_, sc))
@@ -202,6 +207,9 @@ def run(chk):
                 chk.violation('reject-errno', '%s %dx%d: noisy data rejected with %s instead of EDOM' % (typ, n, n, r[:40]), sc.lines)
                 continue
             s[1] += 1
+        elif ' cb=0/' not in r:
+            chk.violation('success-after-error', '%s %dx%d: vnacal_new_solve returned success although it reported an error (%s)' % (typ, n, n, r[:40]), sc.lines)
+            continue
         elif kind == 'gross' and s[2] is None:
             s[2] = sc.lines
         chk.distinct.add((kind, typ, n, pos))
